@@ -128,14 +128,19 @@ def keyEq (F : FloatOps R) : Value R → Value R → Bool
   | .str a, .str b => a == b
   | _, _ => false
 
-def mapLookup (eq : Value R → Value R → Bool) (m : List (Value R × Value R)) (k : Value R) : Option (Value R) :=
+/-- a mapping is an association list; `eq` is the key equality of the language -/
+def mapLookup {α β : Type} (eq : α → α → Bool) (m : List (α × β)) (k : α) : Option β :=
   match m.find? (fun e => eq e.1 k) with
   | some e => some e.2
   | none => none
 
-def mapInsert (eq : Value R → Value R → Bool) : List (Value R × Value R) → Value R → Value R → List (Value R × Value R)
+def mapInsert {α β : Type} (eq : α → α → Bool) : List (α × β) → α → β → List (α × β)
   | [], k, v => [(k, v)]
   | e :: es, k, v => if eq e.1 k then (e.1, v) :: es else e :: mapInsert eq es k v
+
+/-- map_delete -/
+def mapDelete {α β : Type} (eq : α → α → Bool) (m : List (α × β)) (k : α) : List (α × β) :=
+  m.filter (fun e => !eq e.1 k)
 
 /-- composition `a * b`: key k of a maps to b[a[k]]; keys whose value is not a key of b are dropped -/
 def mapCompose (eq : Value R → Value R → Bool) (a b : List (Value R × Value R)) : List (Value R × Value R) :=
@@ -582,6 +587,7 @@ def efunCall (f : String) (args : List (Value R)) : Res (Value R) :=
   | "sizeof", [.str s] => .ok (.int s.length)
   | "sizeof", [_] => .ok (.int 0)
   | "strlen", [.str s] => .ok (.int s.length)
+  | "allocate_mapping", [.int _] => .ok (.map [])     -- presizing is not observable
   | "#if", [v] => .ok v          -- value of a preprocessor condition (64-bit integers in the reference semantics)
   | "allocate", [.int n] => if 0 ≤ n ∧ n ≤ 15000 then .ok (.arr (List.replicate n.toNat (.int 0))) else .err
   | "allocate_buffer", [.int n] => if 0 ≤ n ∧ n ≤ 100000 then .ok (.buf (List.replicate n.toNat 0)) else .err
@@ -671,10 +677,23 @@ mutual
       | .map kvs => do
         let (ps, st) ← evalPairs fuel st kvs
         pure (.map (ps.foldl (fun acc e => mapInsert S.keyEq acc e.1 e.2) []), st)
-      | .efun f args => do
-        let (vs, st) ← evalList fuel st args
-        let r ← efunCall f vs
-        pure (r, st)
+      | .efun f args =>
+        -- map_delete (m, k) removes the key from the mapping held by the variable m (the only mutating efun of the core)
+        match f == "map_delete", args with
+        | true, [.loc v, ke] => do
+          let (kv, st) ← evalE fuel st ke
+          match getVar st true v with
+          | .map m => pure (.int 0, setVar st true v (.map (m.filter (fun e => !S.keyEq e.1 kv))))
+          | _ => .err
+        | true, [.glob v, ke] => do
+          let (kv, st) ← evalE fuel st ke
+          match getVar st false v with
+          | .map m => pure (.int 0, setVar st false v (.map (m.filter (fun e => !S.keyEq e.1 kv))))
+          | _ => .err
+        | _, _ => do
+          let (vs, st) ← evalList fuel st args
+          let r ← efunCall f vs
+          pure (r, st)
       | .call f args => do
         let (vs, st) ← evalList fuel st args
         match P.fns.find? (fun fn => fn.name == f) with
